@@ -700,6 +700,27 @@ example : colsOf [⟨3, 0⟩, ⟨1, 0⟩, ⟨9, 3⟩] = [[0, 0, 3]] ∧ ([⟨3, 
     taken) loses columns: the concatenation has 2 elements for 4 requested functions -/
 example : ([([⟨1, 0⟩, ⟨9, 3⟩] : List Fn)].flatMap id).length = 2 ∧ (sortFns [⟨9, 3⟩, ⟨2, 0⟩, ⟨1, 0⟩, ⟨3, 0⟩]).length = 4 := by decide
 
+/-! ## the row key is the whole tag block: unmapped string values of group-by tags keep rows apart -/
+
+/-- `rows_unique_by_time_tags` and `one_column_per_function` are stated over `Key`, whose `tags` carry the integer value
+    AND the unmapped string value of every tag: there is no hypothesis that string values are empty. Two rows of one
+    second whose group-by tag 0 is unmapped (integer 0) with string values "a" (code 1) and "ab" (code 2): -/
+def reqStr : Req := { win := wAll, limit := 10, gby := [0], bySkey := false, cols := [[0]] }
+def storeStr : List (List (Option (List (List Row)))) :=
+  [[some [[⟨⟨10, [0, 1], 0⟩, [5]⟩, ⟨⟨10, [0, 2], 0⟩, [7]⟩]]]]
+
+/-- the code: two table rows, one column each -/
+example : (getTable .fixed reqStr [⟨10, 11⟩] storeStr).map (fun r => r.1.map (fun o => (o.key.tags, o.data))) =
+    some [([0, 1], [some 5]), ([0, 2], [some 7])] := by decide
+/-- a key made of the integer tag values and the string-top key only (C25-r4-2): the rows collide — one row survives
+    and gets both rows' values, i.e. two columns for one requested function -/
+example : (getTable .fixed reqStr [⟨10, 11⟩] (slimStore 1 storeStr)).map (fun r => r.1.map (fun o => o.data)) =
+    some [[some 5, some 7]] := by decide
+/-- and the hypothesis of `one_column_per_function` (no key twice in one answer) holds for the real key, fails for the
+    slim one -/
+example : (∀ t ∈ todoOf reqStr [⟨10, 11⟩] storeStr, ((storedRows t.2).map (·.key)).Nodup) ∧
+    ¬ (∀ t ∈ todoOf reqStr [⟨10, 11⟩] (slimStore 1 storeStr), ((storedRows t.2).map (·.key)).Nodup) := by decide
+
 /-! ## old code (before 8d8821bd): the shared backing array of rowRepr.Tags -/
 
 /-- two handler-whats; the first answer holds the rows with tag 1 and 3, the second answer only a row with tag 2 -/
